@@ -1,1 +1,64 @@
 // access to private items of the parent module (compiled only under --cfg rustdds_verif)
+use super::*;
+#[allow(unused_imports)]
+use crate::{
+  security::{access_control::*, authentication::*, *},
+  structure::guid::{GuidPrefix, GUID},
+  QosPolicies,
+};
+
+/// An attacker's authentication plug-in: the built-in one, except that after its own identity (issued by
+/// whatever CA it likes) has been validated it checks *peers* against the CA given here - an attacker is not
+/// bound by the rules and wants its plug-in to produce well-formed, correctly signed handshake messages for
+/// honest peers.  Everything else is the real plug-in.
+pub struct VerifImpostorAuth {
+  inner: AuthenticationBuiltin,
+  peers_ca_pem: Vec<u8>,
+}
+
+impl VerifImpostorAuth {
+  pub fn new(peers_ca_pem: Vec<u8>) -> Self {
+    VerifImpostorAuth { inner: AuthenticationBuiltin::new(), peers_ca_pem }
+  }
+}
+
+impl Authentication for VerifImpostorAuth {
+  fn validate_local_identity(&mut self, domain_id: u16, participant_qos: &QosPolicies, candidate_participant_guid: GUID) -> SecurityResult<(ValidationOutcome, IdentityHandle, GUID)> {
+    let r = self.inner.validate_local_identity(domain_id, participant_qos, candidate_participant_guid)?;
+    let ca = certificate::Certificate::from_pem(&self.peers_ca_pem)?;
+    if let Some(info) = self.inner.local_participant_info.as_mut() {
+      info.identity_ca = ca;
+    }
+    Ok(r)
+  }
+  fn validate_remote_identity(&mut self, a: Option<AuthRequestMessageToken>, b: IdentityHandle, c: IdentityToken, d: GuidPrefix) -> SecurityResult<(ValidationOutcome, IdentityHandle, Option<AuthRequestMessageToken>)> {
+    self.inner.validate_remote_identity(a, b, c, d)
+  }
+  fn begin_handshake_request(&mut self, a: IdentityHandle, b: IdentityHandle, c: Vec<u8>) -> SecurityResult<(ValidationOutcome, HandshakeHandle, HandshakeMessageToken)> {
+    self.inner.begin_handshake_request(a, b, c)
+  }
+  fn begin_handshake_reply(&mut self, a: HandshakeMessageToken, b: IdentityHandle, c: IdentityHandle, d: Vec<u8>) -> SecurityResult<(ValidationOutcome, HandshakeHandle, HandshakeMessageToken)> {
+    self.inner.begin_handshake_reply(a, b, c, d)
+  }
+  fn process_handshake(&mut self, a: HandshakeMessageToken, b: HandshakeHandle) -> SecurityResult<(ValidationOutcome, Option<HandshakeMessageToken>)> {
+    self.inner.process_handshake(a, b)
+  }
+  fn get_shared_secret(&self, a: IdentityHandle) -> SecurityResult<SharedSecretHandle> {
+    self.inner.get_shared_secret(a)
+  }
+  fn get_authenticated_peer_credential_token(&self, a: HandshakeHandle) -> SecurityResult<AuthenticatedPeerCredentialToken> {
+    self.inner.get_authenticated_peer_credential_token(a)
+  }
+  fn get_identity_token(&self, a: IdentityHandle) -> SecurityResult<IdentityToken> {
+    self.inner.get_identity_token(a)
+  }
+  fn get_identity_status_token(&self, a: IdentityHandle) -> SecurityResult<IdentityStatusToken> {
+    self.inner.get_identity_status_token(a)
+  }
+  fn set_permissions_credential_and_token(&mut self, a: IdentityHandle, b: PermissionsCredentialToken, c: PermissionsToken) -> SecurityResult<()> {
+    self.inner.set_permissions_credential_and_token(a, b, c)
+  }
+  fn set_listener(&self) -> SecurityResult<()> {
+    self.inner.set_listener()
+  }
+}
